@@ -713,6 +713,48 @@ pub fn digest(resp: Option<RawResponse>) -> Got {
     g
 }
 
+/// Address of the plain-HTTP server of this run (set by `main`), for `mp_transient`.
+pub static PLAIN_ADDR: std::sync::OnceLock<SocketAddr> = std::sync::OnceLock::new();
+/// Handler entries caused by `mp_transient`'s own resends (for the entry counts of `ct` lines).
+pub static K10_RESENDS: std::sync::atomic::AtomicUsize = std::sync::atomic::AtomicUsize::new(0);
+
+/// Known finding K10 (multer 3.1.0, `Multipart::poll_next_field`): when the first of
+/// its two `poll_stream` calls finds the body stream pending and the second receives the
+/// whole body together with the end of the stream, it answers `IncompleteStream` without
+/// looking at the buffer again.  A schedule, not an input: the same request sent again is
+/// served.  When a multipart request is refused with exactly that message and the same
+/// request, sent twice more on its own connection, is delivered (the same value both
+/// times), the echoed value becomes `T:<value delivered on resend>`; a refusal that
+/// repeats is left as it is.  Returns the digest of the last resend.
+pub fn mp_transient(rq: &Req, g: &mut Got) -> Option<Got> {
+    if rq.ep != "mp" || g.status != 400 {
+        return None;
+    }
+    let msg = g.raw.as_ref().map(|r| String::from_utf8_lossy(&r.body).to_string()).unwrap_or_default();
+    if !msg.contains("incomplete multipart stream") {
+        return None;
+    }
+    let addr = PLAIN_ADDR.get()?;
+    let mut last = None;
+    let mut vals = Vec::new();
+    for _ in 0..2 {
+        let a = single(*addr, rq);
+        K10_RESENDS.fetch_add(1, std::sync::atomic::Ordering::SeqCst);
+        let g2 = digest(a.resp);
+        if g2.status != 200 {
+            return None;
+        }
+        vals.push(g2.echo.v.clone());
+        last = Some(g2);
+    }
+    if vals[0] != vals[1] {
+        return None;
+    }
+    eprintln!("K10: transient multipart refusal ({} bytes), delivered on resend", rq.payload.len());
+    g.echo.v = format!("T:{}", vals[0]);
+    last
+}
+
 impl Got {
     /// The output half: `port` is the client's own port on the connection that
     /// carried the answer (an observation, compared with the echoed peer port).
